@@ -263,6 +263,37 @@ pub fn case(t: &[u8], refs: &Refs, out: &mut Vec<Violation>) -> u64 {
 	1
 }
 
+/// Owned values are also produced by copying: a clone of b, and a value that held a before b was
+/// copied into it (`clone_from` may reuse the buffer), must show b's views.
+pub fn copies_case(a: &[u8], b: &[u8]) -> Option<Violation> {
+	let input = json!({"text_a": bytes_json(a), "text": bytes_json(b)});
+	let r = guard(|| {
+		let (oa, ob) = (DataUrlBuf::new(a.to_vec()).ok()?, DataUrlBuf::new(b.to_vec()).ok()?);
+		let want = borrowed_views(DataUrl::new(b).ok()?);
+		let mut x = oa.clone();
+		x.clone_from(&ob);
+		let y = ob.clone();
+		let mut z = ob.clone();
+		z.clone_from(&oa);
+		z.clone_from(&ob);
+		for (name, v) in [("clone_from", &x), ("clone", &y), ("clone_from twice", &z)] {
+			if v.as_str().as_bytes() != b {
+				return Some((name, format!("text {:?}", lossy(v.as_str().as_bytes()))));
+			}
+			let (ov, dv) = (owned_views(v), borrowed_views(v));
+			if ov != want || dv != want {
+				return Some((name, format!("owned views {:?}, re-scanned {:?}", ov, want)));
+			}
+		}
+		None
+	});
+	match r {
+		Guard::Ok(None) => None,
+		Guard::Ok(Some((name, obs))) => Some(Violation::new("C18", "data-url-copies", "copy-views-differ", input).feat("route", name).obs(obs).exp("a copy shows the views of the value it was copied from")),
+		Guard::Panic(pm) => Some(Violation::new("C18", "data-url-copies", "panic", input).obs(format!("panic: {pm}")).exp("no panic")),
+	}
+}
+
 pub fn tokens() -> Vec<Vec<u8>> {
 	let mut v: Vec<Vec<u8>> = ["data:", "dat", ":", ",", ";", "base64", "base64,", "BASE64,", "bAse64", "a", "/", "#", "?", "%41", "%", "=", "A", " ", "QQ==", "QR==", "QUJ=", "-A==", "_w==", "+"].iter().map(|s| domains::b(s)).collect();
 	v.push(vec![0xC3, 0xA9]); // raw non-ASCII bytes
@@ -355,6 +386,40 @@ pub fn run(ctx: &Ctx) -> Report {
 		total.count("long_media_type_inputs", r.states);
 		total.merge(r);
 	}
+	// copies: all ordered pairs of the accepted sequences of <= 3 tokens and a few longer values
+	{
+		let mut vals: Vec<Vec<u8>> = Vec::new();
+		for si in 0..shards {
+			domains::for_each_raw(&toks, 3, si, |t| {
+				if DataUrl::new(t).is_ok() {
+					vals.push(t.to_vec());
+				}
+			});
+		}
+		for t in ["data:text/plain;base64,SGVsbG8=", "data:text/plain,hello%20world", "data:a/b;base64,", "data:;base64,QQ==", "data:a/b;c=d;base64,QQ==", "data:a/b;c=d,x"] {
+			vals.push(t.as_bytes().to_vec());
+		}
+		vals.sort();
+		vals.dedup();
+		let cs = 64usize;
+		let r = run_shards(ctx, cs, |si| {
+			let mut r = Report::new();
+			for (i, a) in vals.iter().enumerate() {
+				if i % cs != si {
+					continue;
+				}
+				for b in &vals {
+					r.evaluations += 1;
+					if let Some(v) = copies_case(a, b) {
+						r.violate(v);
+					}
+				}
+			}
+			r
+		});
+		total.count("copy_pairs", (vals.len() * vals.len()) as u64);
+		total.merge(r);
+	}
 	done.store(true, Ordering::Relaxed);
 	let _ = wd.join();
 	total.distinct_nontrivial = total.states;
@@ -364,7 +429,13 @@ pub fn run(ctx: &Ctx) -> Report {
 	total
 }
 
-pub fn replay(ctx: &Ctx, _check: &str, input: &Value) -> Vec<Violation> {
+pub fn replay(ctx: &Ctx, check: &str, input: &Value) -> Vec<Violation> {
+	if check == "data-url-copies" {
+		return match (json_bytes(&input["text_a"]), json_bytes(&input["text"])) {
+			(Some(a), Some(b)) => copies_case(&a, &b).into_iter().collect(),
+			_ => vec![],
+		};
+	}
 	let refs = Refs::new(&ctx.root);
 	let t = match json_bytes(&input["text"]) {
 		Some(t) => t,
